@@ -312,10 +312,15 @@ func (vc *VC) evalBuiltin(s *State, call *ast.CallExpr, name string, want int) [
 			srt := sortOf(t)
 			return []*Term{mkSlice(srt, ConstArr(ArraySort(SInt, sortOf(u.Elem())), zeroValue(u.Elem())), n, c, False)}
 		case *types.Chan:
+			c := IntLit(0)
 			if len(call.Args) > 1 {
-				vc.eval(s, call.Args[1])
+				c = vc.eval(s, call.Args[1])
 			}
-			return []*Term{vc.allocRef(s, "chan", nil)}
+			r := vc.allocRef(s, "chan", nil)
+			vc.ghostSet(s, "chcap", r, c)
+			vc.ghostSet(s, "sent", r, IntLit(0))
+			vc.ghostSet(s, "recvd", r, IntLit(0))
+			return []*Term{r}
 		}
 	case "new":
 		t := vc.typeOf(call.Args[0])
@@ -462,6 +467,7 @@ func (vc *VC) callStatic(s *State, call *ast.CallExpr, fn *types.Func, recv *Ter
 		return vc.applySpecNoBody(s, call, key, spec, sig, recv, args)
 	}
 	if model, ok := stdModels[key]; ok {
+		vc.lastRecv = recv
 		return model(vc, s, call, args)
 	}
 	if fi != nil && fi.Decl != nil && fi.Decl.Body != nil && vc.canInline(fi) {
@@ -532,6 +538,14 @@ func (vc *VC) canInline(fi *FuncInfo) bool {
 
 func (vc *VC) havocCall(s *State, call *ast.CallExpr, why string, sig *types.Signature) []*Term {
 	vc.prog.Uncontracted[why+" in "+shortKey(vc.fn.Key)] = true
+	if vc.workerMode {
+		// an unknown callee may panic: the goroutine's deferred calls still run
+		ps := s.clone()
+		ps.panicV = Fresh("panicv", SInt)
+		ps.assume(Gt(ps.panicV, IntLit(0)))
+		vc.frame().panics = append(vc.frame().panics, ps)
+		s.ghost["$fcalls"] = Add(ghostInt(s, "$fcalls"), IntLit(1))
+	}
 	vc.havocHeap(s, why)
 	res := make([]*Term, sig.Results().Len())
 	for i := range res {
